@@ -194,6 +194,30 @@ NOT_APPLICABLE = {
 }
 
 
+# clauses added after the first version of each claim (appended to the claim text)
+ADDED = {
+    "C01": " Added: function bodies are shared only under a complete dedup key (mirror of C07 R-C07a incl. the 'no Python numeric hash' clause); every axis-role parameter of the dot_general matrix fast path "
+           "is consulted element-wise before MatMul / Gemm is emitted (R-C01j); the IRFFT spectrum reconstruction conserves the transform length for lengths 2..40 (finite-domain evaluation, R-C01k).",
+    "C02": " Added: a precondition inside any(...) does not license a rewrite of every element (R-C02f); forward chain walks accept a consumer only through its first input (R-C02m); every literal operator-name test is "
+           "qualified by the default domain (R-C02n).",
+    "C03": " Added: function outputs never alias function inputs (R-C03h); LowerDimExpr's memo table is a value-bearing scope table, and function-body contexts receive no value-bearing table from the parent at all (R-C03f).",
+    "C04": " Added: the NCHW-input origin instance of C12 R-C12a is re-decided here (symbol origins point at the axis of the external value).",
+    "C05": " Added: the converter's output list only grows at its end in leaf order (R-C05f); result leaves that alias a graph input or an earlier leaf get a value of their own before custom names are applied (R-C05g); "
+           "the custom-name collision universe includes nested graphs.",
+    "C06": " Added: the fori_loop index offset may only be skipped on the lower == 0 edge.",
+    "C08": " Added: shapes stamped on plugin-emitted Transpose outputs are the operand shape gathered through the permutation, helpers evaluated on a 3-cycle (R-C08j); the refresh's broadcast merge skips size-1 constants only under a rank bound (R-C08k).",
+    "C09": " Added: constant widening under enable_double_precision is restricted to float32 (R-C09f).",
+    "C12": " Added: complex dtypes are rejected before each boundary Transpose (complex values are packed real tensors of rank + 1).",
+    "C13": " Added: reflective attribute writes never target caller-supplied objects (R-C13g: 124 setattr / delattr sites classified by receiver).",
+    "C14": " Added: memo tables are keyed by every parameter the memoised value depends on (R-C14g).",
+    "C15": " Added: the export-mode normaliser returns the value it validated (R-C15d).",
+    "C16": " Added: function-body contexts are not handed the enclosing graph's symbol-origin tables, so a missing origin fails loudly (mirror of C03 R-C03f).",
+    "C18": " Added: dtype classes of reference and model output are compared before values (R-C18f); a validation session never flows into or out of a module-level container (R-C18e).",
+    "C19": " Added: fori_loop bounds reach the body index on every path (mirror of C06 R-C06e); argument contributions collected in an accumulator are combined, not overwritten (R-C19g, frozen accumulator table); "
+           "a role name is read from one axis of an operand throughout a plugin module (R-C19h); memoised abstract evaluations are keyed by every argument (mirror of C14 R-C14g).",
+}
+
+
 def main() -> int:
     props = [json.loads(l)["id"] for l in open(os.path.join(HERE, "properties.jsonl")) if l.strip()]
     checks = []
@@ -201,6 +225,7 @@ def main() -> int:
         if pid not in CLAIMS:
             continue
         tech, text, note, ref = CLAIMS[pid]
+        text = text + ADDED.get(pid, "")
         checks.append({
             "property_id": pid,
             "quick_cmd": f"{PY} -m sa.cli check {pid} --tier quick",
